@@ -1609,7 +1609,7 @@ def bucket(case, obs):
         return 'linker/%s%s/%s' % ('neg' if case['t'] < 0 else 'pos', '/infeasible' if not obs['lags'] <= pp < case['n'] - obs['leads'] else '',
                                    obs['out'][1] if obs['out'][0] == 'raise' else 'ret')
     if case['entry'] == 'solve_period':
-        return 'solve_period/%s/%s' % (case['span_kind'], obs['out'][1] if obs['out'][0] == 'raise' else 'ret')
+        return '%ssolve_period/%s/%s' % ('fortran:' if obs.get('engine') == 'fortran' else '', case['span_kind'], obs['out'][1] if obs['out'][0] == 'raise' else 'ret')
     if case['entry'] == 'history':
         calls = [so_ for so_ in obs['history'] if so_.get('op') == 'solve_t']
         return 'history/%d calls/%d raised/%d edits' % (len(calls), sum(1 for so_ in calls if so_['out'][0] == 'raise'),
